@@ -624,6 +624,20 @@ func execG(toks []string) (res string) {
 					port = lnPort
 				}
 				conf = mkConf(1, v, port, 1)
+				// the other branches of getHealthCheckAddrInfo / checkTCPConnect, chosen by the position in the script:
+				// no Host or a Host without port (the backend's own address is dialled), no CheckTimeout (net.Dial)
+				if f[0] == "1" {
+					switch len(out) % 4 {
+					case 1:
+						conf.Host = nil
+					case 2:
+						h := "verif.host"
+						conf.Host = &h
+					}
+				}
+				if len(out)%3 == 1 {
+					conf.CheckTimeout = nil
+				}
 			} else {
 				if len(f) != 3 {
 					return "bad-op"
@@ -635,6 +649,9 @@ func execG(toks []string) (res string) {
 					return "bad-op"
 				}
 				conf = mkHTTPConf(v, code, want)
+				if len(out)%3 == 2 {
+					conf.CheckTimeout = nil // http client without timeout
+				}
 			}
 			if parked {
 				lb := g.live()
